@@ -305,18 +305,25 @@ class TopicEngine(Engine):
         n = rng.pick([2, 4, 6, 10, 16, 25, 40, 60])
         tx = {0: kind}          # live sender id -> kind
         rx = {0: kind}          # live receiver id -> kind
+        subs = {0: set()}       # generator's idea of the subscription sets (only to bias topic choice)
         tx_used, rx_used = {0}, {0}
         futs = {}               # live future id -> receiver id
         nextv = [0]
         ops = []
         max_rx = rng.pick([1, 2, 3, 3])
         max_tx = rng.pick([1, 2, 3, 3])
+        style = rng.below(10)   # 0-5 traffic-heavy, 6-7 lifecycle-heavy, 8-9 burst fill
+        stray = 25 if style < 6 else 10     # 1/stray of the handle arguments are random (possibly invalid) ids
 
         def any_tx():
-            return rng.pick(sorted(tx)) if tx and not rng.chance(1, 12) else rng.below(5)
+            return rng.pick(sorted(tx)) if tx and not rng.chance(1, stray) else rng.below(5)
 
         def any_rx():
-            return rng.pick(sorted(rx)) if rx and not rng.chance(1, 12) else rng.below(5)
+            return rng.pick(sorted(rx)) if rx and not rng.chance(1, stray) else rng.below(5)
+
+        def topic():
+            live = sorted(set().union(*[subs.get(r, set()) for r in rx])) if rx else []
+            return rng.pick(live) if live and rng.chance(3, 4) else rng.pick(TOPICS)
 
         def emit(op):
             ops.append(op)
@@ -331,6 +338,7 @@ class TopicEngine(Engine):
                 tx[a[0]] = "a" if tx[a[0]] == "s" else "s"
             elif k == "clr" and a[0] in rx and a[1] not in rx_used:
                 rx[a[1]] = rx[a[0]]
+                subs[a[1]] = set(subs.get(a[0], set()))
                 rx_used.add(a[1])
             elif k == "dr" and a[0] in rx and a[0] not in futs.values():
                 rx.pop(a[0])
@@ -340,17 +348,35 @@ class TopicEngine(Engine):
                 futs[a[0]] = a[1]
             elif k == "df":
                 futs.pop(a[0], None)
+            elif k == "sub" and a[0] in rx:
+                subs.setdefault(a[0], set()).add(a[1])
+            elif k == "uns" and a[0] in rx:
+                subs.setdefault(a[0], set()).discard(a[1])
+            elif k == "xr" and a[0] in rx:
+                subs[a[0]] = set()
+
+        TRAFFIC = [("pub", 34), ("sub", 8), ("uns", 4), ("try", 18), ("rto", 5), ("mk", 4), ("poll", 10), ("df", 1),
+                   ("pn", 4), ("cls", 2), ("xs", 1), ("ds", 1), ("cvs", 1), ("clr", 2), ("xr", 1), ("dr", 1),
+                   ("cvr", 1), ("ics", 1), ("icr", 1), ("emp", 1), ("cap", 1)]
+        LIFE = [("pub", 22), ("sub", 10), ("uns", 5), ("try", 12), ("rto", 4), ("mk", 4), ("poll", 7), ("df", 2),
+                ("pn", 3), ("cls", 4), ("xs", 3), ("ds", 3), ("cvs", 2), ("clr", 4), ("xr", 3), ("dr", 3), ("cvr", 3),
+                ("ics", 1), ("icr", 1), ("emp", 1), ("cap", 1)]
 
         def one():
-            k = rng.weighted([("pub", 30), ("sub", 12), ("uns", 6), ("try", 14), ("rto", 4), ("mk", 4),
-                              ("poll", 8), ("df", 2), ("pn", 3), ("cls", 3), ("xs", 2), ("ds", 2), ("cvs", 1),
-                              ("clr", 3), ("xr", 2), ("dr", 2), ("cvr", 2), ("ics", 1), ("icr", 1), ("emp", 1),
-                              ("cap", 1)])
+            k = rng.weighted(TRAFFIC if style < 6 or style >= 8 else LIFE)
+            if style < 6:
+                # keep the channel alive most of the time: do not retire the last open handle of a side
+                if k in ("xs", "ds") and len(tx) <= 1 and not rng.chance(1, 8):
+                    k = "pub"
+                if k in ("xr", "dr") and len(rx) <= 1 and not rng.chance(1, 8):
+                    k = "try"
             if k == "pub":
                 nextv[0] += 1
-                emit(["pub", str(any_tx()), str(rng.pick(TOPICS)), str(nextv[0])])
-            elif k in ("sub", "uns"):
+                emit(["pub", str(any_tx()), str(topic()), str(nextv[0])])
+            elif k == "sub":
                 emit([k, str(any_rx()), str(rng.pick(TOPICS))])
+            elif k == "uns":
+                emit([k, str(any_rx()), str(topic())])
             elif k == "cls":
                 if len(tx) >= max_tx and not rng.chance(1, 6):
                     return
@@ -374,9 +400,12 @@ class TopicEngine(Engine):
             elif k == "pn":
                 emit(["pn", str(any_rx()), str(rng.pick(WAKERS))])
 
-        style = rng.below(10)
-        if style < 2:
-            # fill mailboxes: subscribe, then a burst of publishes on one topic
+        # most cases start with a few subscriptions so that publishes are actually routed
+        if style < 6 or rng.chance(1, 2):
+            for _ in range(rng.pick([1, 1, 2, 3])):
+                emit(["sub", "0", str(rng.pick(TOPICS))])
+        if style >= 8:
+            # fill mailboxes: a burst of publishes on one subscribed topic
             t = rng.pick(TOPICS)
             emit(["sub", "0", str(t)])
             for _ in range(rng.pick([1, 2, 3, 5, 6])):
@@ -384,7 +413,7 @@ class TopicEngine(Engine):
                 emit(["pub", "0", str(t), str(nextv[0])])
         for _ in range(n):
             one()
-        if style >= 5:
+        if style >= 4:
             # lifecycle tail: closes/drops of the sender handles in a random order, then every
             # receive form / observer on every receiver handle
             hs = sorted(tx)
